@@ -75,17 +75,14 @@ def nestle_store(ix, R):
     R.check('1.nestle.loop', 'ARG', site, 'column index enumerates fit_names', ok,
             key=unparse(lp.iter_ast), detail='loop over %s' % fmt(fl, lp.iter_rf[0]), loc=f.loc(lp.node))
     trace = fl.tab.atom('idx', (samples, Slice(None, None, None), i))
-    # param dict built by item stores
+    # the per-parameter summary, whether built by item stores or as a dictionary literal (possibly in a helper)
+    from sa.helpers import dict_facts
+    facts = dict_facts(fl)
     entries = {}
-    for e in fl.of('store'):
-        if lp in e.loops:
-            ta = atom_of(fl, e.target)
-            if ta is not None and ta.head == 'idx' and len(ta.args) == 2:
-                ka = atom_of(fl, ta.args[1])
-                if ka is not None and ka.head == 'const':
-                    entries[ka.args[0].strip("'")] = e.value
-                    if e.guards or len(e.loops) != 1:
-                        entries[ka.args[0].strip("'")] = fl.tab.atom('conditional', (e.value,))
+    for k_, vals in facts.items():
+        for v_, e_, cont in vals:
+            if lp in e_.loops:
+                entries[k_] = v_ if not e_.guards and len(e_.loops) == 1 else fl.tab.atom('conditional', (v_,))
     summary(R, '1.nestle', site, f, fl, entries, qev, trace, weights, f.loc(qev.node))
     # 3. map / mean / aliases
     why = []
@@ -99,23 +96,24 @@ def nestle_store(ix, R):
     R.check('3.nestle.map', 'ALG', site,
             'MAP = trace[argmax(weights)], mean = mean_and_cov(samples, weights)[0][idx]',
             not why, key='; '.join(why), detail='; '.join(why), loc=f.loc())
-    st = {}
-    for e in fl.of('store'):
-        if not e.loops:
-            st[unparse(e.target_ast)] = e
     why = []
-    for k, v in (("nestle_output['solution']['samples']", samples), ("nestle_output['solution']['weights']", weights)):
-        if k not in st or not fl.tab.equal(st[k].value, v) or st[k].guards:
-            why.append('%s = %s' % (k, fmt(fl, st[k].value) if k in st else None))
+    for k, v in (('samples', samples), ('weights', weights)):
+        vals = [x for x in facts.get(k, []) if not x[1].loops]
+        if len(vals) != 1 or not fl.tab.equal(vals[0][0], v) or vals[0][1].guards:
+            why.append("['solution']['%s'] = %s" % (k, [fmt(fl, x[0]) for x in vals] or None))
     rr = fl.of('return')
     if len(rr) != 1 or rr[0].guards or rr[0].loops:
         why.append('the output dictionary is returned conditionally')
     R.check('3.nestle.alias', 'ARG', site, 'stored samples / weights are the sampler result arrays unchanged',
             not why, key='; '.join(why), detail='; '.join(why), loc=f.loc())
     # per-parameter dict stored under its name
-    ps = [e for e in fl.of('store') if lp in e.loops and "['fitparams']" in unparse(e.target_ast)]
-    okp = len(ps) == 1 and atom_of(fl, ps[0].target) is not None and not ps[0].guards and \
-        fl.tab.equal(atom_of(fl, ps[0].target).args[1], fl.tab.atom('elem', (lp.iter_rf[0], i)))
+    # the store whose key is the loop's parameter name (the container it goes into ends up under 'fitparams')
+    pname = fl.tab.atom('elem', (lp.iter_rf[0], i))
+    ps = [e for e in fl.of('store') if lp in e.loops and atom_of(fl, e.target) is not None and
+          atom_of(fl, e.target).head == 'idx' and len(atom_of(fl, e.target).args) == 2 and
+          isinstance(atom_of(fl, e.target).args[1], RF) and fl.tab.equal(atom_of(fl, e.target).args[1], pname)]
+    okp = len(ps) == 1 and not ps[0].guards and len(ps[0].loops) == 1 and 'fitparams' in facts or \
+        (len(ps) == 1 and not ps[0].guards and "['fitparams']" in unparse(ps[0].target_ast))
     R.check('1.nestle.key', 'ARG', site, 'summary of column idx is stored under fit_names[idx]', okp,
             key='store %s' % [unparse(e.node) for e in ps], detail='%s' % [unparse(e.node) for e in ps], loc=f.loc())
 
@@ -325,7 +323,8 @@ def quantile_fn(ix, R):
         cdf = spec(fl, 'accumulate(w[p])', b)
         alt = spec(fl, 'cumsum(w[p])', b)
         ok = False
-        for c in (cdf, alt):
+        alt0 = spec(fl, 'cumsum(w[p], axis=0)', b)        # the weights are one-dimensional
+        for c in (cdf, alt, alt0):
             want = spec(fl, 'interp(q, c/c[-1], x[p])', dict(b, c=c))
             ok = ok or fl.tab.equal(r.value, want)
         g = r.guards[-1]
